@@ -173,9 +173,10 @@ class FileLock:
         if not self._locked or self._lock_fd is None:
             return
 
+        fd = self._lock_fd
         try:
             if self._used_excl_fallback:
-                os.close(self._lock_fd)
+                os.close(fd)
                 try:
                     os.unlink(self.lock_file)
                 except (IOError, OSError):
@@ -183,20 +184,22 @@ class FileLock:
             else:
                 try:
                     if FCNTL_AVAILABLE:
-                        fcntl.flock(self._lock_fd, fcntl.LOCK_UN)
+                        fcntl.flock(fd, fcntl.LOCK_UN)
                     elif MSVCRT_AVAILABLE:
-                        msvcrt.locking(self._lock_fd, msvcrt.LK_UNLCK, 1)  # type: ignore[attr-defined]
+                        msvcrt.locking(fd, msvcrt.LK_UNLCK, 1)  # type: ignore[attr-defined]
                 finally:
                     # Closing the descriptor drops the kernel lock too: a failed
                     # explicit unlock must not leave the table locked until this
                     # object happens to be garbage collected.
-                    os.close(self._lock_fd)
-
-            self._lock_fd = None
-            self._locked = False
+                    os.close(fd)
         except Exception:
             # Best effort cleanup: the descriptor was closed above, so the lock
             # is released even if the explicit unlock failed.
+            pass
+        finally:
+            # Forget the descriptor whatever happened (including an asynchronous
+            # interrupt): a stale number would be unlocked and CLOSED again by a
+            # later release()/__del__ - by then it may belong to another open file.
             self._lock_fd = None
             self._locked = False
 
